@@ -724,7 +724,8 @@ func init() {
 	SeqFamilies["C20"] = c20Chunks
 	register(&Family{
 		Property: "C20",
-		Rule: "sizes: v in [0,1100] (thorough [0,20500]) plus u-1,u,u+1,1.5u,999.95u,... for every unit of both systems, 2^k+-1, 2^63-1 x 18 (26) verb/flag/precision combinations through SizeB1024/SizeB1000 and through Counters/Total/Current/InvertedCurrent; percentage: all 0<=current<=total<=40 plus the C08 boundary lattice x 8 formats; durations 0..200 s (thorough 0..4000 s) plus minute/hour/day boundaries x 4 styles through the clock-free EwmaETA; estimator sample sequences up to length 3 (4) over n in {-1,0,1,1024,10^6} x dur in {0,1ms,1s} for MovingAverageSpeed and MovingAverageETA with a recording average; Elapsed/AverageSpeed/AverageETA under the virtual clock. " +
+		Rule: "also: every value decorator prints the same text whatever the refill mark is; " +
+			"sizes: v in [0,1100] (thorough [0,20500]) plus u-1,u,u+1,1.5u,999.95u,... for every unit of both systems, 2^k+-1, 2^63-1 x 18 (26) verb/flag/precision combinations through SizeB1024/SizeB1000 and through Counters/Total/Current/InvertedCurrent; percentage: all 0<=current<=total<=40 plus the C08 boundary lattice x 8 formats; durations 0..200 s (thorough 0..4000 s) plus minute/hour/day boundaries x 4 styles through the clock-free EwmaETA; estimator sample sequences up to length 3 (4) over n in {-1,0,1,1024,10^6} x dur in {0,1ms,1s} for MovingAverageSpeed and MovingAverageETA with a recording average; Elapsed/AverageSpeed/AverageETA under the virtual clock. " +
 			"Oracle: the printed number times the printed unit reads back to the true value within half a unit of the last printed digit; the unit is the largest that fits; no NaN/Inf/%!verb; durations parse back exactly (truncated to the style's resolution); sum of n*value delivered to the moving average == sum of durations fed (zero-progress samples carried); elapsed and average speed frozen after completion. All clock-free cases are re-executed on the unmodified package.",
 		Items: func(tier string) []Item { return seqItems("C20", tier) },
 	})
